@@ -50,7 +50,63 @@ def run(ctx):
             ctx.violation("correspondence", f"shared-{kind}", f"a {kind} object is shared between the populations observed at steps {s1} and {s2}; the model allocates it afresh", spec)
     ctx.notes["shared_dict_or_member_list_objects"] = shared
     ctx.notes["observations_compared"] = sum(len(tr.observations) for _, tr in kept)
+    partial_speciation_family(ctx)
     solver_family(ctx)
+
+
+def partial_speciation_family(ctx, cases=None):
+    """Populations that carry only PART of a speciation (any proper, non-empty subset of species_representatives / species_members /
+    species_membership — e.g. what a caller assembles by hand, or what is left after one map was cleared) handed to every operator:
+    selection documents such input as rejected, the others ignore or overwrite the maps in their OUTPUT.  Whatever an operator
+    answers (a population or an exception), the population object it was given must be what it was before the call.
+    Oracle only (the heap model starts from populations without species maps)."""
+    from concurrent.futures import ThreadPoolExecutor
+
+    from queasars.minimum_eigensolvers.base.evolutionary_algorithm import OperatorContext
+    from queasars.minimum_eigensolvers.evqe.evolutionary_algorithm.population import EVQEPopulation
+    from vlib import evqe
+
+    if cases is None:
+        cases = []
+        combos = [(1, 1, 0), (1, 0, 1), (0, 1, 1), (1, 0, 0), (0, 1, 0), (0, 0, 1)]
+        for k in range(ctx.n(14, 120)):
+            n, inds = opskit.random_population(ctx.rng, size=ctx.rng.randint(2, 5))
+            # the first six: selection (the operator that documents the check) with every proper non-empty subset; then random
+            keep = combos[k] if k < 6 else ctx.rng.choice(combos)
+            op = "selection" if k < 6 else ctx.rng.choice(["selection", "selection", "topo", "removal", "speciation", "last"])
+            cases.append({"n": n, "inds": inds, "keep": list(keep), "thr": ctx.rng.choice([1, 2, 3]), "seed": ctx.rng.randint(0, 10**6),
+                          "step": {"op": op, "p": ctx.rng.choice([0.0, 0.5, 1.0]), "thr": 2, "alpha": 0.125, "beta": 0.25, "tournament": ctx.rng.choice([None, 2]), "seed": ctx.rng.randint(0, 10**6)}})
+    for case in cases:
+        table = opskit.Table()
+        with opskit.install():
+            ev = opskit.make_evaluator(case["n"])
+            ex = ThreadPoolExecutor(max_workers=1)
+            try:
+                octx = OperatorContext(circuit_evaluator=ev, result_callback=lambda r: None, circuit_evaluation_count_callback=lambda k: None, parallel_executor=ex)
+                base = EVQEPopulation(individuals=tuple(evqe.impl_individual(p) for p in case["inds"]), species_representatives=None, species_members=None, species_membership=None)
+                full = opskit.build_operator({"op": "speciation", "thr": case["thr"], "seed": case["seed"]}, None).apply_operator(population=base, operator_context=octx)
+                r, m, ms = case["keep"]
+                arg = EVQEPopulation(individuals=full.individuals,
+                                     species_representatives=list(full.species_representatives) if r else None,
+                                     species_members={k: list(v) for k, v in full.species_members.items()} if m else None,
+                                     species_membership=dict(full.species_membership) if ms else None)
+                before = opskit.snapshot_population(arg, table)
+                outcome = "returned"
+                try:
+                    opskit.build_operator(case["step"], opskit.make_optimizer()).apply_operator(population=arg, operator_context=octx)
+                except Exception as e:  # noqa: BLE001 - rejecting such input is fine; changing it is not
+                    outcome = f"raised {type(e).__name__}"
+                after = opskit.snapshot_population(arg, table)
+            finally:
+                ex.shutdown(wait=True)
+        kept = "+".join(nm for nm, k in zip(("representatives", "members", "membership"), case["keep"]) if k)
+        ctx.tally(f"partial-speciation:{case['step']['op']}:{kept}:{outcome.split()[0]}")
+        ctx.case(dict(k="partial", case=case), True)
+        if after != before:
+            field = next(f for f in before if before[f] != after[f])
+            ctx.violation("oracle", f"argument-changed-partial-speciation-{field}",
+                          f"{case['step']['op']} was given a population carrying only {kept} of a speciation and {outcome}; the population object it was given changed: "
+                          f"{field} was {before[field]}, is {after[field]}", dict(partial_case=case))
 
 
 def solver_family(ctx, cases=None):
@@ -102,6 +158,12 @@ def replay(ctx, payload):
         # an independent pipeline B after a finished pipeline A, in one process
         specs = [spec["pipeline_a"]] + ([spec["pipeline_b"]] if spec.get("pipeline_b") else [])
         opskit.drive(ctx, "C11_replay", [{k: v for k, v in s_.items() if k != "failing_step"} for s_ in specs], opskit.oracle_c11_step, oracle, "check_heap_case", "heap-model-vs-impl", pipelines=True)
+        for v in ctx.violations:
+            print(f"{v['kind']}: {v['key']}: {v['what']}")
+        print("impl-vs-property:", "FAILS" if any(v["kind"] == "oracle" for v in ctx.violations) else "ok")
+        return
+    if "partial_case" in spec:
+        partial_speciation_family(ctx, [spec["partial_case"]])
         for v in ctx.violations:
             print(f"{v['kind']}: {v['key']}: {v['what']}")
         print("impl-vs-property:", "FAILS" if any(v["kind"] == "oracle" for v in ctx.violations) else "ok")
